@@ -1037,7 +1037,13 @@ class Explorer:
     def opaque_call(self, st, fr, path, args, dest, site, info):
         """Non-inlined call: record effect, havoc &mut arguments, bind a result term."""
         fn = fr.fn
-        argterms = tuple(self.deref(st, a) if a[0] == "ref" else a for a in args)
+        def dr(a):
+            if a[0] == "ref":
+                return self.deref(st, a)
+            if a[0] == "agg" and a[1] in ("std::option::Option", "std::result::Result") and len(a[3]) == 1 and a[3][0][0] == "ref":
+                return ("agg", a[1], a[2], (self.deref(st, a[3][0]),))      # Some(&x): what the callee sees is x
+            return a
+        argterms = tuple(dr(a) for a in args)
         if info is not None and info.get("targs") and (not argterms or (info.get("name") in ("try_into", "try_from", "as_mut", "as_ref") and path not in self.F.fns)):
             argterms = tuple(argterms) + (("targs", tuple(info["targs"])),)
         # frame rule: accessor(mutator(x, ..)) == accessor(x) when the accessor reads no field the mutator writes
@@ -1161,7 +1167,11 @@ class Explorer:
                 and args and (args[0][0] == "c" or (args[0][0] == "agg" and not args[0][3])):
             return None  # in-crate reason-code conversions are inlined (decided by their own match tables)
         if p in ("std::convert::Into::into", "std::convert::From::from") :
-            return ret(SYM(self.cap(("into", args[0], info["targs"][-1] if p.endswith("into") else info["targs"][0]))))
+            tgt_ty = info["targs"][-1] if p.endswith("into") else info["targs"][0]
+            INTS = ("u8", "u16", "u32", "u64", "u128", "usize", "i32", "i64")
+            if path not in self.F.fns and tgt_ty in INTS and args and args[0][0] == "c" and isinstance(args[0][1], int):
+                return ret(C(args[0][1], tgt_ty))          # lossless std integer / bool widening of a constant
+            return ret(SYM(self.cap(("into", args[0], tgt_ty))))
         if p == "std::clone::Clone::clone":
             v = self.deref(st, args[0])
             return ret(v)
@@ -1303,8 +1313,9 @@ class Explorer:
                     return ret(AGG("std::option::Option", "Some", (items[i],)))
                 return ret(AGG("std::option::Option", "None"))
         # ---- checked slice access: Some(..) exactly when the index / range is within the length
-        if p == "std::slice::<impl [T]>::get" and len(args) == 2:
-            base, ix = args[0], args[1]
+        if p in ("std::slice::<impl [T]>::first", "std::slice::<impl [T]>::get") and len(args) == (1 if p.endswith("first") else 2):
+            base = args[0]
+            ix = C(0, "usize") if p.endswith("first") else args[1]
             ln = SYM(self.cap(("len", base)))
             INDEX = "std::slice::index::<impl std::ops::Index<I> for [T]>::index"
             conds = None        # list of (bool value, required truth)
@@ -1340,6 +1351,34 @@ class Explorer:
             add_alt(conds, some)
             for i in range(len(conds)):
                 add_alt(conds[:i] + [(conds[i][0], not conds[i][1])], AGG(OPT, "None"))
+            if not alts:
+                self.finish_path(st, None, "diverge")
+                return "stop"
+            return ("fork", alts)
+        # ---- split_first: Some((&x[0], &x[1..])) exactly when the slice is not empty
+        if p == "std::slice::<impl [T]>::split_first" and len(args) == 1:
+            base = args[0]
+            ln = SYM(self.cap(("len", base)))
+            INDEX = "std::slice::index::<impl std::ops::Index<I> for [T]>::index"
+            OPT = "std::option::Option"
+            cond = self.binop(st, "Lt", C(0, "usize"), ln)
+            first = SYM(self.cap(("call", INDEX, (base, C(0, "usize")))))
+            rest = SYM(self.cap(("call", INDEX, (base, AGG("std::ops::RangeFrom", "RangeFrom", (C(1, "usize"),))))))
+            alts = []
+            for truth, val in ((True, AGG(OPT, "Some", (("tup", (first, rest)),))), (False, AGG(OPT, "None"))):
+                s2 = st.clone()
+                r = self.eval_bool(s2, cond)
+                if isinstance(r, bool):
+                    if r != truth:
+                        continue
+                elif not self.assume_bool(s2, r, truth):
+                    continue
+                k2 = self.clone_stack(stack)
+                self.write_place(s2, k2[-1], dest, val, site)
+                if target is None:
+                    continue
+                k2[-1].bb = target
+                alts.append((s2, k2))
             if not alts:
                 self.finish_path(st, None, "diverge")
                 return "stop"
@@ -1442,6 +1481,9 @@ class Explorer:
                 return v
             if a[0] == "agg" and b[0] == "agg" and not a[3] and not b[3]:
                 return ret(out(C(1 if (a[1], a[2]) == (b[1], b[2]) else 0, "bool")))
+            se = struct_eq(a, b)
+            if se is not None:
+                return ret(out(C(1 if se else 0, "bool")))
             for (x, y) in ((a, b), (b, a)):
                 if x[0] == "sym" and y[0] == "agg" and not y[3]:
                     return ret(out(SYM(("enum_eq", x[1], y[1], y[2]))))
@@ -1760,8 +1802,38 @@ def default_inline(ex, callee, info):
     return False
 
 
+def struct_eq(a, b):
+    """Derived equality of two fully concrete values (enum variants / constants, nested): True / False, None if symbolic."""
+    if a[0] == "c" and b[0] == "c":
+        return a[1] == b[1]
+    if a[0] == "agg" and b[0] == "agg" and a[1] == b[1]:
+        if a[2] != b[2]:
+            return False
+        if len(a[3]) != len(b[3]):
+            return None
+        res = True
+        for x, y in zip(a[3], b[3]):
+            r = struct_eq(x, y)
+            if r is False:
+                return False
+            if r is None:
+                res = None
+        return res
+    if a[0] == "arr" and b[0] == "arr" and len(a[1]) == len(b[1]):
+        res = True
+        for x, y in zip(a[1], b[1]):
+            r = struct_eq(x, y)
+            if r is False:
+                return False
+            if r is None:
+                res = None
+        return res
+    return None
+
+
 def small_private_helper(callee):
-    return callee.get("kind") == "Fn" and not callee.get("pub") and callee["path"].startswith("mqtt::packet::") and len(callee["blocks"]) <= 14
+    return callee.get("kind") in ("Fn", "AssocFn") and not callee.get("pub") and callee["path"].startswith("mqtt::packet::") \
+        and len(callee["blocks"]) <= 14 and not callee.get("impl_trait") and "Builder" not in callee.get("impl_self", "")
 
 
 BUILDER_RE = re.compile(r"^mqtt::packet::.*Builder(<.*>)?$")
